@@ -834,16 +834,22 @@ fn eval_sub(w: &World, parent: usize, r: usize, sq: &EQ) -> SubEval {
     let rd = &w.m.ents[w.ds.rows[parent].ent].refs[r];
     let targets: Vec<usize> = w.ds.rows[parent].refs[r].clone();
     let lists = eval_rows(w, sq, &targets, !rd.array);
-    // presence: judged on the unlimited match set of the first alternative (sub selections carry no
-    // aggregate in generated queries, so there is one alternative)
+    // presence = "the sub selection as written returns something": judged on the match set of the first
+    // alternative (sub selections carry no aggregate in generated queries, so there is one alternative) after
+    // its own skip; `first 0` reads both as "no limit" and as "no row"
     let ls = &lists[0];
-    let present = if ls.items.iter().any(|i| i.must == Tri::True) {
+    let sure = ls.items.iter().filter(|i| i.must == Tri::True).count();
+    let maybe = ls.items.iter().filter(|i| i.must == Tri::Opt).count();
+    let mut present = if sure > ls.skip {
         Tri::True
-    } else if ls.items.iter().any(|i| i.must == Tri::Opt) {
+    } else if sure + maybe > ls.skip {
         Tri::Opt
     } else {
         Tri::False
     };
+    if ls.first == Some(0) && present == Tri::True {
+        present = Tri::Opt;
+    }
     let exp = if rd.array {
         Exp::List(lists)
     } else {
